@@ -4,7 +4,7 @@ import subprocess
 from .lib import *
 from . import C06
 
-RULE = ("model-driven, typestate-pruned enumeration of call histories: for each of 16 request configurations (every standard method, both "
+RULE = ("model-driven, typestate-pruned enumeration of call histories: for each of 21 request configurations (every standard method, both "
         "versions, with/without Expect, with/without send-body-despite-method, framing headers) the histories over the per-state menu "
         "of permitted calls (writes with small/large buffers, server behaviours: interim 100, partial input, rejection with/without "
         "fields, garbage, every body framing, redirects with/without Location, premature advance attempts, read-only queries) are "
@@ -27,6 +27,10 @@ CONFIGS = [
     ("POST", "1.0", [("content-length", "2")], False),
     ("POST", "1.1", [("expect", "100-continue")], False), ("PUT", "1.1", [("expect", "100-continue"), ("content-length", "2")], False),
     ("GET", "1.1", [], True), ("DELETE", "1.1", [("content-length", "2")], True), ("GET", "1.1", [("expect", "100-continue")], True),
+    # boundary configurations (appended: the corpus refers to configurations by index): an empty sized body, the methods that take a body
+    # only on request, the handshake on HTTP/1.0
+    ("POST", "1.1", [("content-length", "0")], False), ("TRACE", "1.1", [], True), ("CONNECT", "1.1", [("content-length", "2")], True),
+    ("POST", "1.0", [("expect", "100-continue"), ("content-length", "2")], False), ("HEAD", "1.1", [("content-length", "0")], True),
 ]
 
 R100 = b"HTTP/1.1 100 Continue\r\n\r\n"
